@@ -20,6 +20,9 @@ total = 0
 cases = []
 # stride through the case stream so that every batch kind is sampled
 allc = list(itertools.islice(gen, 6000))
+if os.environ.get("ONLY_KIND"):
+    # a protocol run for one kind of case (e.g. ONLY_KIND=hist: the project histories)
+    allc = [c for c in allc if c.get("kind") == os.environ["ONLY_KIND"]]
 step = max(1, len(allc) // n)
 cases = allc[::step][:n]
 import multiprocessing
@@ -55,6 +58,8 @@ for prop in PROPS:
     print(prop, report["properties"][prop], flush=True)
 report["wall_s"] = round(time.time() - t0, 1)
 os.makedirs(os.path.join(VERIF, "evidence"), exist_ok=True)
-json.dump(report, open(os.path.join(VERIF, "evidence", "_determinism.json"), "w"), indent=1)
+if os.environ.get("ONLY_KIND"):
+    report["only_kind"] = os.environ["ONLY_KIND"]
+json.dump(report, open(os.path.join(VERIF, "evidence", "_determinism%s.json" % ("_" + os.environ["ONLY_KIND"] if os.environ.get("ONLY_KIND") else "")), "w"), indent=1)
 core.cleanup_scratch()
 sys.exit(2 if report["divergences"] else 0)
